@@ -82,6 +82,12 @@ class KindInfer:
     def truth(self, test, env):
         test, neg = pat._strip_not(test)
         r = None
+        if isinstance(test, ast.BoolOp):
+            vals = [self.truth(v, env) for v in test.values]
+            if isinstance(test.op, ast.Or):
+                r = True if any(v is True for v in vals) else (False if all(v is False for v in vals) else None)
+            else:
+                r = False if any(v is False for v in vals) else (True if all(v is True for v in vals) else None)
         if isinstance(test, ast.Call) and isinstance(test.func, ast.Name) and test.func.id == "isinstance" \
                 and isinstance(test.args[0], ast.Name) and test.args[0].id in env:
             ks = env[test.args[0].id]
@@ -110,6 +116,10 @@ class KindInfer:
             if isinstance(st, ast.Assign) and len(st.targets) == 1 and isinstance(st.targets[0], ast.Name):
                 env[st.targets[0].id] = self.ev(fn, st.value, env, selfkind)
                 continue
+            if isinstance(st, ast.AugAssign) and isinstance(st.target, ast.Name):
+                env[st.target.id] = self.ev(fn, ast.BinOp(left=ast.Name(id=st.target.id, ctx=ast.Load()), op=st.op,
+                                                          right=st.value), env, selfkind)
+                continue
             if isinstance(st, ast.Return):
                 return out | self.ev(fn, st.value, env, selfkind)
             if isinstance(st, ast.Raise):
@@ -131,8 +141,15 @@ class KindInfer:
                 return frozenset("W")
             if isinstance(f, ast.Name) and f.id == "EmptyShape":
                 return frozenset("E")
-            if isinstance(f, ast.Name) and f.id == "copy":
+            if isinstance(f, ast.Name) and f.id in ("copy", "deepcopy"):
                 return self.ev(fn, e.args[0], env, selfkind)
+            if isinstance(f, ast.Attribute) and f.attr in ("__copy__", "__deepcopy__"):
+                return self.ev(fn, f.value, env, selfkind)
+            if isinstance(f, ast.Name) and f.id in ("tuple", "list") and len(e.args) == 1:
+                return self.ev(fn, e.args[0], env, selfkind) if isinstance(e.args[0], (ast.ListComp, ast.GeneratorExp, ast.Name)) \
+                    else frozenset("?")
+            if isinstance(f, ast.Name) and f.id == "map":
+                return frozenset("?")
             if "shape.ShapeFromJordans" in tg:
                 return frozenset("SCD")
             if isinstance(f, ast.Attribute) and f.attr == "__class__":
@@ -161,6 +178,14 @@ class KindInfer:
             if isinstance(g.iter, ast.Attribute) and g.iter.attr == "subshapes":
                 return frozenset("?sub")
             return frozenset("?")
+        if isinstance(e, ast.IfExp):
+            t = self.truth(e.test, env)
+            r = frozenset()
+            if t is not False:
+                r |= self.ev(fn, e.body, env, selfkind)
+            if t is not True:
+                r |= self.ev(fn, e.orelse, env, selfkind)
+            return r
         if isinstance(e, ast.UnaryOp) and isinstance(e.op, (ast.Invert, ast.USub)):
             r = frozenset()
             for k in self.ev(fn, e.operand, env, selfkind):
